@@ -879,3 +879,38 @@ Proof.
   intros cap t d bs d1 ops Hwf Hfit Hsz Hb Hs. pose proof (t_minval_fits cap t Hsz) as Hm.
   rewrite <- Hm. eapply dict_roundtrip; eauto. rewrite Hm. exact Hb.
 Qed.
+
+(* ---- stable decoding: the form in which the dictionary coupling is used by the cached-storage twin ---- *)
+Definition decodes_stably (d : trie) (bs : bytes) (v : tnode) : Prop :=
+  forall d'', dext d d'' -> tc_deserialize d'' bs = Some v.
+
+Lemma dext_refl : forall d, dext d d. Proof. intros d k n H. exact H. Qed.
+Lemma dext_trans : forall a b c, dext a b -> dext b c -> dext a c. Proof. intros a b c H1 H2 k n H. auto. Qed.
+
+Lemma decodes_stably_mono : forall d d' bs v, dext d d' -> decodes_stably d bs v -> decodes_stably d' bs v.
+Proof. intros d d' bs v H S d'' H'. apply S. eapply dext_trans; eauto. Qed.
+
+Lemma decodes_stably_now : forall d bs v, decodes_stably d bs v -> tc_deserialize d bs = Some v.
+Proof. intros d bs v S. apply S, dext_refl. Qed.
+
+(* what Serialize leaves behind: a bigger dictionary and bytes that decode to retotal (prune th t) against that
+   dictionary and against every extension of it *)
+Lemma serialize_stable : forall cap t d bs d1,
+  t_wfb t = true -> t_fitsb t = true ->
+  tr_weight d + names_weight (t_minval cap t) t < two55 ->
+  tc_serialize cap t d = (bs, d1) ->
+  dext d d1 /\ tr_weight d1 <= tr_weight d + names_weight (t_minval cap t) t /\
+  decodes_stably d1 bs (t_retotal (t_prune (t_minval cap t) t)).
+Proof.
+  intros cap t d bs d1 Hwf Hfit Hb Hs. unfold tc_serialize in Hs.
+  destruct (ser_t_ok (t_minval cap t) t d Hfit Hb) as [kt [d' [Hs1 [He1 [Hw1 [Hf1 Hk1]]]]]].
+  rewrite Hs1 in Hs. injection Hs as <- <-.
+  split; [exact He1|]. split; [exact Hw1|].
+  intros d'' He. unfold tc_deserialize.
+  change (1 mod 128 :: ser_nd (t_minval cap t) kt) with (uvarint_enc 1 ++ ser_nd (t_minval cap t) kt).
+  rewrite uvarint_roundtrip by (cbn; lia).
+  apply parse_root_ser; [apply Hk1; exact He|exact Hwf|exact Hf1].
+Qed.
+
+Lemma d_put_dext : forall name t k t', tr_weight t + Nlen name < two63 -> d_put name t = (k, t') -> dext t t'.
+Proof. intros name t k t' Hb Hp. destruct (d_put_spec name t k t' Hb Hp) as [_ [H _]]. exact H. Qed.
